@@ -165,7 +165,21 @@ def replay(v):
         if "no survivor" in ob:
             cfg = mk(optical, radio, thrown=1)
             cfg.simulation.angle_from_limb = 1e-9
-            t = runit(cfg)
+            if not target:
+                from nuspacesim.simulation.geometry.region_geometry import RegionGeom
+
+                for sd in range(200):  # a seed for which the single thrown trajectory does not survive
+                    np.random.seed(sd)
+                    g_ = RegionGeom(cfg)
+                    g_.throw(1)
+                    if not g_.event_mask.any():
+                        break
+                with warnings.catch_warnings():
+                    warnings.simplefilter("ignore")
+                    np.random.seed(sd)
+                    t = comp.compute(cfg)
+            else:
+                t = runit(cfg)
             if len(t.colnames) and len(t) == 0:
                 return {"reproduced": True, "key": "empty run is not an empty valid table", "detail": f"columns {t.colnames}"}
             return {"reproduced": False, "key": None, "detail": "ok"}
